@@ -144,7 +144,7 @@ def run(ctx):
 
     # ---- code -> spec: recorded random schedules validated by TLC against Trace_Reprepare.tla
     tconsts = {"NHosts": 3, "MaxUnprep": 3}
-    n_tr = 1000 if ctx.quick else 12000
+    n_tr = 600 if ctx.quick else 12000
     traces, cfgs = [], []
     for _ in range(n_tr):
         c, ev = rr.record(ctx.rng, nhosts=3, max_unprep=3)
